@@ -21,13 +21,17 @@ from ._c02_classes import CLASSES as C02_CLASSES, Base, _fullshape, _model_doms,
 from . import _c35_nft as NFT
 
 ID = "C35"
-LEAN_MODULES = ["NiftyVerif.Props.C35", "NiftyVerif.Model.LinOpsProto", "NiftyVerif.Model.Response"]
+LEAN_MODULES = ["NiftyVerif.Props.C35", "NiftyVerif.Model.LinOpsProto", "NiftyVerif.Model.Response",
+                "NiftyVerif.Model.ResponseLos", "NiftyVerif.Model.Nft", "NiftyVerif.Model.NftProto"]
 DRIVER = "Driver/C35.lean"
 TRANSLATORS = []
 OBLIGATIONS = ["NiftyVerif.C35." + t for t in (
     "interp_weights_sum_one", "interp_exact_multilinear", "interp_at_gridpoint", "interp_row_apply",
     "regrid_exact_affine", "pad_plain_spec", "pad_central_spec", "pad_plain_sum", "mask_selects_unflagged",
-    "mask_adjoint_zero_fill", "los_weights_sum", "los_outside_empty")]
+    "mask_adjoint_zero_fill", "los_weights_sum", "los_outside_empty",
+    "los_traverse_refines", "los_traverse_refines_zero", "los_traverse_weights_sum", "los_traverse_weights_nonneg",
+    "los_traverse_steps", "los_traverse_first_pixel", "los_clip_inside",
+    "nft_adjoint", "nft_mono_apply_spec", "nft_on_grid_is_dft", "nft_on_grid_is_dft_nd", "nft_shift", "nft_entry_is_phase")]
 RULE = ("one case = (operator class, generated grid / sampling points / line segments / positions / mask / accuracy); "
         "non-trivial = the operator has at least one non-zero weight; distinct by canonical JSON of the case")
 TRUSTED_BASE = [
